@@ -2317,6 +2317,157 @@ def run_derived(shard, ctx, focus=None):
                         "result than the same values built from scratch", fc)
 
 
+PREC_BOXES = {
+    "ortho": (np.diag([5.0, 5.0, 5.0]), np.diag([4.0, 6.0, 3.5])),
+    "triclinic": (np.array([[4.0, 0, 0], [2, 3, 0], [1, 1, 3]]), np.array([[5.0, 0, 0], [-1, 4, 0], [2, 1, 6]])),
+}
+
+
+def run_precedence(shard, ctx, focus=None):
+    """OPTION PRECEDENCE - a box can come from two places, the `box=` argument and the `box` attribute of the structure.
+    Complete product {ndarray (n,3), ndarray (m,n,3), AtomArray, AtomArrayStack} x {own box: none, box1, box2 (per-model
+    boxes for stacks)} x {box argument: none, box1, box2; single and per-model for multi-model input} x {periodic False,
+    True} for index_displacement / index_distance / index_angle / index_dihedral, and the coordinate-based displacement /
+    distance / angle / dihedral with structures that carry their own box.  Expectation (docstrings): periodic=False ->
+    no box at all; periodic=True -> the given box is used instead of the box attribute, the attribute only when no box
+    is given; coordinates without any box -> refused; displacement(..., box=None) ignores a box attribute.  Oracle =
+    the coordinate-based function on plain float32 arrays with exactly that box (differential)."""
+    import biotite.structure as struc
+
+    rep = Reporter(ctx, shard)
+    if focus is not None and "kind_" not in focus:
+        focus = None
+    b1, b2 = (f32(b) for b in PREC_BOXES[shard["boxes"]])
+    kk = np.arange(1, 25, dtype=float)[:, None]
+    X = f32(11.0 * np.modf(kk * np.sqrt(np.array([2.0, 3.0, 5.0])))[0] - 2.0).reshape(3, 8, 3)   # spread over ~2 boxes
+    n = X.shape[1]
+    scale = np.array([1.0, 1.25, 1.5], dtype=np.float32)[:, None, None]
+    per_model = {"box1": b1[None] * scale, "box2": b2[None] * scale}
+    single = {"box1": b1, "box2": b2}
+    idxs = {"displacement": np.array([[0, 1], [2, 7], [5, 3], [6, 6]]), "distance": np.array([[0, 1], [2, 7], [5, 3]]),
+            "angle": np.array([[0, 1, 2], [7, 3, 5]]), "dihedral": np.array([[0, 1, 2, 3], [7, 5, 4, 2]])}
+    for kind in ("ndarray_n3", "ndarray_mn3", "AtomArray", "AtomArrayStack"):
+        multi = kind in ("ndarray_mn3", "AtomArrayStack")
+        coords = X if multi else X[0]
+        for own in (("none",) if kind.startswith("ndarray") else ("none", "box1", "box2")):
+            if kind.startswith("ndarray"):
+                obj = coords.copy()
+            else:
+                obj = to_object(coords)
+                if own != "none":
+                    obj.box = (per_model[own] if multi else single[own]).copy()
+            own_box = None if own == "none" else (per_model[own] if multi else single[own])
+            argopts = [("none", None), ("box1", single["box1"]), ("box2", single["box2"])]
+            if multi:
+                argopts += [("box1_per_model", per_model["box1"]), ("box2_per_model", per_model["box2"])]
+            for argname, argbox in argopts:
+                for periodic in (False, True):
+                    for fname, idx in idxs.items():
+                        fc = {"kind_": kind, "own": own, "arg": argname, "periodic": periodic, "f": fname,
+                              "cls": "%s,own_%s,arg_%s,periodic_%s" % (kind, own, argname.split("_")[0], periodic)}
+                        if focus is not None and any(focus.get(k) != fc[k] for k in ("kind_", "own", "arg", "periodic", "f")):
+                            continue
+                        ctx.journal(json.dumps({"s": shard, "f": fc}))
+                        ctx.ev(1, 1)
+                        eff = None if not periodic else (argbox if argbox is not None else own_box)
+                        pts = [np.take(coords, idx[:, j], axis=-2) for j in range(idx.shape[1])]
+                        with np.errstate(all="ignore"):
+                            want = getattr(struc, fname)(*pts, box=None if eff is None else eff.copy())
+                        kw = {"periodic": periodic}
+                        if argbox is not None:
+                            kw["box"] = argbox.copy()
+                        fn = getattr(struc, "index_" + fname)
+                        if periodic and eff is None:
+                            if kind.startswith("ndarray"):
+                                ctx.count("refused")        # documented: coordinates + periodic need an explicit box
+                                try:
+                                    with np.errstate(all="ignore"):
+                                        fn(obj, idx, **kw)
+                                    rep.bad("index_%s|accepted|coordinates_periodic_without_box" % fname,
+                                            "periodic=True with coordinates and no box was not refused", fc, "ValueError", "returned")
+                                except Exception:  # noqa: BLE001
+                                    pass
+                                continue
+                            ctx.count("unspecified")        # structure without box attribute: exception or the plain value
+                            try:
+                                with np.errstate(all="ignore"):
+                                    got = fn(obj, idx, **kw)
+                            except Exception:  # noqa: BLE001
+                                ctx.count("unspecified_refused")
+                                continue
+                        else:
+                            ctx.count("accepted")
+                            got = call(rep, "index_" + fname, fc, fn, obj, idx, **kw)
+                            if got is None:
+                                continue
+                        if np.shape(got) != np.shape(want) or not np.array_equal(np.asarray(got), np.asarray(want), equal_nan=True):
+                            which = "box_attribute_used_instead_of_box_argument" if (
+                                periodic and argbox is not None and own_box is not None and own != argname.split("_")[0]) \
+                                else "wrong_box"
+                            rep.bad("index_%s|%s|%s" % (fname, which, fc["cls"]),
+                                    "index_%s does not use the box its documentation names (periodic=%s, box argument %s, box "
+                                    "attribute %s)" % (fname, periodic, argname, own), fc,
+                                    np.asarray(want).reshape(-1)[:6].tolist(), np.asarray(got).reshape(-1)[:6].tolist())
+                        else:
+                            ctx.outcome(("prec", kind, own, argname, periodic, fname))
+                # coordinate-based functions: only the box ARGUMENT counts, a box attribute is never read
+                if not kind.startswith("ndarray"):
+                    for fname, idx in idxs.items():
+                        fc = {"kind_": kind, "own": own, "arg": argname, "periodic": "n/a", "f": "plain_" + fname,
+                              "cls": "%s,own_%s,arg_%s" % (kind, own, argname.split("_")[0])}
+                        if focus is not None and any(focus.get(k) != fc[k] for k in ("kind_", "own", "arg", "periodic", "f")):
+                            continue
+                        ctx.ev(1, 1)
+                        objs = [obj[..., idx[:, j]] for j in range(idx.shape[1])]       # sub-structures keep the box attribute
+                        pts = [np.take(coords, idx[:, j], axis=-2) for j in range(idx.shape[1])]
+                        with np.errstate(all="ignore"):
+                            want = getattr(struc, fname)(*pts, box=None if argbox is None else argbox.copy())
+                        got = call(rep, fname, fc, getattr(struc, fname), *objs, box=None if argbox is None else argbox.copy())
+                        if got is not None and (np.shape(got) != np.shape(want) or not np.array_equal(
+                                np.asarray(got), np.asarray(want), equal_nan=True)):
+                            rep.bad("%s|box_attribute_changes_result|%s" % (fname, fc["cls"]),
+                                    "%s(structures, box=%s) differs from the same call on plain coordinates" % (fname, argname), fc)
+    # remove_pbc: molecules come from the BondList when there is one, from chain_id only without it (both present and
+    # different: the bonds win)
+    box = f32(np.diag([5.0, 5.0, 5.0]))
+    base = np.array(GEOMS["compact"], dtype=float)
+    wraps = np.array([[0, 0, 0], [1, 0, 0], [0, -1, 1], [-1, 1, 0]], dtype=float)
+    for wi in range(4):
+        W = f32(base + np.roll(wraps, wi, axis=0) @ box.astype(float))
+        for chains in (["A", "A", "A", "A"], ["A", "B", "A", "B"], ["A", "A", "B", "B"]):
+            for edges in ([(0, 1), (1, 2), (2, 3)], [(0, 1), (2, 3)]):
+                fc = {"kind_": "remove_pbc", "own": str(chains), "arg": str(edges), "periodic": wi, "f": "remove_pbc",
+                      "cls": "bonds_and_chains"}
+                if focus is not None and any(focus.get(k) != fc[k] for k in ("kind_", "own", "arg", "periodic", "f")):
+                    continue
+                ctx.ev(1, 1)
+                a = to_object(W)
+                a.box = box
+                a.chain_id[:] = chains
+                a.bonds = struc.BondList(4, np.array([[i, j, 1] for i, j in edges]))
+                twin = a.copy()
+                twin.chain_id[:] = "A"
+                got = call(rep, "remove_pbc", fc, struc.remove_pbc, a)
+                want = struc.remove_pbc(twin)
+                if got is not None and not np.allclose(got.coord, want.coord, atol=1e-4):
+                    rep.bad("remove_pbc|chain_annotation_overrides_bonds|bonds_and_chains",
+                            "with a BondList the molecules must come from the bonds, not from chain_id", fc,
+                            want.coord.tolist(), got.coord.tolist())
+        # without bonds: per chain, i.e. like path bonds inside every chain
+        for chains, edges in ((["A", "A", "B", "B"], [(0, 1), (2, 3)]), (["A", "A", "A", "A"], [(0, 1), (1, 2), (2, 3)])):
+            ctx.ev(1, 1)
+            a = to_object(W)
+            a.box = box
+            a.chain_id[:] = chains
+            twin = a.copy()
+            twin.bonds = struc.BondList(4, np.array([[i, j, 1] for i, j in edges]))
+            fc = {"kind_": "remove_pbc", "own": str(chains), "arg": "no_bonds", "periodic": wi, "f": "remove_pbc", "cls": "chains_only"}
+            got = call(rep, "remove_pbc", fc, struc.remove_pbc, a)
+            if got is not None and not np.allclose(got.coord, struc.remove_pbc(twin).coord, atol=1e-4):
+                rep.bad("remove_pbc|chains_not_used_without_bonds|chains_only",
+                        "without a BondList the segmentation must be removed per chain", fc)
+
+
 def run_edge(shard, ctx, focus=None):
     """empty and singleton pieces"""
     import biotite.structure as struc
@@ -2459,6 +2610,8 @@ def shards(tier, seed):
     out.append({"kind": "identity"})
     out.append({"kind": "derived"})
     out.append({"kind": "edge"})
+    out.append({"kind": "precedence", "boxes": "ortho"})
+    out.append({"kind": "precedence", "boxes": "triclinic"})
     rots = range(24) if tier == "thorough" else [(7 * seed + k) % 24 for k in (2, 9, 16, 23)]
     for base in ("t2", "full", "o_2_5_9", "c0_75_90_110"):
         for r in rots:
@@ -2478,7 +2631,8 @@ def shards(tier, seed):
 RUNNERS.update({"dist": run_dist, "angle": run_angle, "dihedral": run_dihedral, "generic": run_generic,
                 "shapes": run_shapes, "dispbox": run_dispbox, "boxhelpers": run_boxhelpers, "unitcell": run_unitcell, "pbc": run_pbc, "transform": run_transform, "backbone": run_backbone,
                 "models": run_models, "order": run_order, "alias": run_alias, "flavour": run_flavour, "edge": run_edge,
-                "flavour_pairs": run_flavour_pairs, "identity": run_identity, "derived": run_derived})
+                "flavour_pairs": run_flavour_pairs, "identity": run_identity, "derived": run_derived,
+                "precedence": run_precedence})
 
 
 def run_shard(shard, ctx):
